@@ -21,13 +21,18 @@ Next ==
            post == TreeOf(ev.tree)
            listed == {[name |-> x.name, nosel |-> x.nosel, haschildren |-> x.haschildren,
                        hasnochildren |-> x.hasnochildren] : x \in SeqSet(ev.listed)}
+           listedSub == {[name |-> x.name, subscribed |-> x.subscribed] : x \in SeqSet(ev.listed)}
            bad ==
                (IF ev.probe THEN ConfineBad([escapes |-> Escapes(ev.nm), status |-> ev.status,
                                              outside_changed |-> ev.outside_changed, leaked |-> ev.leaked,
                                              listslot |-> ev.slot \in {"LISTREF", "LISTPAT", "LSUBREF"}])
                 ELSE IF ev.act = "Restart" THEN (IF pre \subseteq post THEN {} ELSE {"C17.RestartKeepsTree"})
                 ELSE NsStepBad(pre, ev, post))
-               \cup (IF ev.act \in {"List", "Lsub"} THEN ListBad(pre, ev.ref, SeqSet(ev.pats), ev.lsub, listed, ev.dup) ELSE {})
+               \cup (IF ev.act \in {"List", "Lsub"}
+                     THEN ListBad(pre, ev.ref, SeqSet(ev.pats), ev.lsub \/ ev.sel = "SUBSCRIBED", listed, ev.dup)
+                     ELSE {})
+               \cup (IF ev.act = "List" /\ (ev.sel = "SUBSCRIBED" \/ ev.ret = "SUBSCRIBED") /\ ev.status = "OK"
+                     THEN SubAttrBad(pre, listedSub) ELSE {})
                \cup DiskDbBad(DiskOf(ev.tree), post)
        IN /\ \A c \in bad : PrintT(<<"VIOL", tid, l, ev.act, c>>)
           /\ (l = Len(R)) => PrintT(<<"DONE", tid, l>>)
